@@ -439,6 +439,110 @@ fn f32_case(rep: &mut Report, which: Formula, rng: &mut Rng, complex: bool) {
     }
 }
 
+// ------------------------------------------------------------------ process history
+
+/// Child process of the stage `process-order`: the formulas are generic functions, and anything they
+/// keep in a `static` is shared by ALL their instantiations for the life of the process. The first
+/// call in a process therefore must not decide what later calls of another precision compute. The
+/// battery: monomial-type polynomials on a fixed grid, in single precision first and then in double
+/// (`f32-first`), or the other way round (`f64-first`). Prints the worst error in units of
+/// eps*ptilde/h^m per precision; the parent applies the frozen constants.
+pub fn order_probe(order: &str) {
+    let grid_x = [-1.5, 0.0, 0.25, 1.0, 2.0];
+    let grid_h = [0.0625, 0.125, 0.25];
+    let coef: [f64; 5] = [0.75, -1.5, 0.5, 2.0, -0.25];
+    let run64 = || -> (f64, f64) {
+        let (mut w1, mut w2) = (0.0f64, 0.0f64);
+        let p = Poly { c: coef.iter().map(|c| C::new(*c, 0.0)).collect(), complex: false };
+        let p3 = Poly { c: coef[..4].iter().map(|c| C::new(*c, 0.0)).collect(), complex: false };
+        for x in grid_x {
+            for h in grid_h {
+                let d1 = derivative(|t: f64| p.eval_r(t), x, h);
+                let d2 = second_derivative(|t: f64| p3.eval_r(t), x, h);
+                w1 = w1.max((d1 - p.deriv(1, x).re).abs() / (EPS * p.tilde(x.abs() + 2.0 * h) / h));
+                w2 = w2.max((d2 - p3.deriv(2, x).re).abs() / (EPS * p3.tilde(x.abs() + 2.0 * h) / (h * h)));
+                let pc = Poly { c: coef.iter().map(|c| C::new(*c, 0.5 * *c)).collect(), complex: true };
+                let dc = derivative(|t: f64| pc.eval_c(t), x, h);
+                w1 = w1.max((dc - pc.deriv(1, x)).norm() / (EPS * pc.tilde(x.abs() + 2.0 * h) / h));
+            }
+        }
+        (w1, w2)
+    };
+    let run32 = || -> (f64, f64) {
+        let (mut w1, mut w2) = (0.0f64, 0.0f64);
+        let c32: Vec<f32> = coef.iter().map(|c| *c as f32).collect();
+        let p = Poly { c: c32.iter().map(|c| C::new(*c as f64, 0.0)).collect(), complex: false };
+        let p3 = Poly { c: c32[..4].iter().map(|c| C::new(*c as f64, 0.0)).collect(), complex: false };
+        let ev = |c: &[f32], t: f32| c.iter().rev().fold(0.0f32, |a, ck| a * t + ck);
+        for x in grid_x {
+            for h in grid_h {
+                let (xf, hf) = (x as f32, h as f32);
+                let d1 = derivative(|t: f32| ev(&c32, t), xf, hf) as f64;
+                let d2 = second_derivative(|t: f32| ev(&c32[..4], t), xf, hf) as f64;
+                w1 = w1.max((d1 - p.deriv(1, x).re).abs() / (EPS32 * p.tilde(x.abs() + 2.0 * h) / h));
+                w2 = w2.max((d2 - p3.deriv(2, x).re).abs() / (EPS32 * p3.tilde(x.abs() + 2.0 * h) / (h * h)));
+            }
+        }
+        (w1, w2)
+    };
+    let (a, b) = match order {
+        "f32-first" => {
+            let s = run32();
+            let d = run64();
+            (d, s)
+        }
+        "f64-first" => {
+            let d = run64();
+            let s = run32();
+            (d, s)
+        }
+        _ => {
+            println!("PROBE-ERROR unknown order");
+            std::process::exit(3);
+        }
+    };
+    println!("PROBE order={} f64_first_derivative={:e} f64_second_derivative={:e} f32_first_derivative={:e} f32_second_derivative={:e}", order, a.0, a.1, b.0, b.1);
+}
+
+fn process_order_case(rep: &mut Report, order: &str) {
+    rep.eval();
+    let exe = match std::env::current_exe() {
+        Ok(e) => e,
+        Err(e) => {
+            rep.inconclusive("process-order: current_exe unavailable");
+            let _ = e;
+            return;
+        }
+    };
+    let out = std::process::Command::new(exe).args(["probe", "C19", order]).output();
+    let text = match out {
+        Ok(o) if o.status.success() => String::from_utf8_lossy(&o.stdout).to_string(),
+        _ => {
+            rep.inconclusive("process-order: child process failed");
+            return;
+        }
+    };
+    let line = text.lines().find(|l| l.starts_with("PROBE order=")).unwrap_or("").to_string();
+    let get = |key: &str| -> Option<f64> { line.split_whitespace().find_map(|t| t.strip_prefix(&format!("{}=", key)).and_then(|v| v.parse::<f64>().ok())) };
+    rep.count(&format!("process_order/{}", order), 1);
+    for (key, k) in [("f64_first_derivative", K_P1), ("f64_second_derivative", K_P2), ("f32_first_derivative", K_P1), ("f32_second_derivative", K_P2)] {
+        match get(key) {
+            Some(v) => {
+                rep.max(&format!("process_order/{}/{}_ratio", order, key), v);
+                if !(v <= k) {
+                    rep.violation(
+                        &format!("process-order/{}", key),
+                        J::obj().set("order_of_the_calls_in_a_fresh_process", order).set("battery", "fixed degree-4 / degree-3 polynomials, x in {-1.5, 0, 0.25, 1, 2}, h in {1/16, 1/8, 1/4}").set("child_output", line.as_str()),
+                        format!("in a fresh process that makes its calls in the order {}, the worst error of {} is {:e} x eps*ptilde/h^m (allowed {}): the result of a call depends on which numeric type called first", order, key, v, k),
+                    );
+                }
+            }
+            None => rep.inconclusive("process-order: child output not understood"),
+        }
+    }
+    rep.nontrivial(CaseHash::new("c19-process-order").s(order).0);
+}
+
 // ------------------------------------------------------------------ transcendental family
 
 #[derive(Clone, Debug)]
@@ -709,11 +813,24 @@ pub fn stages(ctx: &Ctx) -> Vec<Stage> {
             let maxdeg = which.exact_deg() + 2;
             // degrees at and just above the exactness degree get half of the cases
             let deg = if rng.bool() { which.exact_deg() + rng.below(3) } else { rng.below(maxdeg + 1) };
-            let p = Poly::gen(&mut rng, deg, complex);
+            let mut p = Poly::gen(&mut rng, deg, complex);
+            if rng.chance(0.1) {
+                // the formulas are linear in the function: a polynomial of size 1e-250 or 1e+250 is
+                // differentiated as exactly (relative to its size) as one of size 1
+                let e = rng.sign() * rng.r(100.0, 250.0);
+                let sc = 10f64.powf(e);
+                for c in p.c.iter_mut() {
+                    *c *= sc;
+                }
+                rep.count(&format!("{}/{}/scaled_by_1e+-100..250", which.name(), if complex { "complex" } else { "real" }), 1);
+            }
             let (x, h) = gen_xh(&mut rng);
             poly_case(rep, which, &p, x, h, name);
         }));
     }
+    st.push(Stage::new("process-order", 2, move |i, rep| {
+        process_order_case(rep, if i == 0 { "f32-first" } else { "f64-first" });
+    }));
     let n_sz = tier.pick(40_000u64, 1_000_000u64);
     st.push(Stage::new("stencil-zeros", n_sz, move |i, rep| {
         let mut rng = Rng::for_case(seed, "c19-stencil-zeros", i);
@@ -748,6 +865,9 @@ pub fn stages(ctx: &Ctx) -> Vec<Stage> {
 
 pub fn thresholds(ctx: &Ctx, rep: &Report) -> Vec<Threshold> {
     let mut t = vec![];
+    for order in ["f32-first", "f64-first"] {
+        t.push(Threshold { what: format!("fresh process making its calls in the order {}", order), required: 1.0, observed: rep.counter(&format!("process_order/{}", order)) as f64 });
+    }
     let big = ctx.tier.pick(1.0, 200.0);
     for which in [Formula::First, Formula::Second] {
         for field in ["real", "complex"] {
@@ -762,6 +882,7 @@ pub fn thresholds(ctx: &Ctx, rep: &Report) -> Vec<Threshold> {
             });
             t.push(Threshold { what: format!("{} cases with >= 2 exactly zero samples on the stencil", key), required: ctx.tier.pick(2_000.0, 50_000.0), observed: (2..=4).map(|k| rep.counter(&format!("{}/stencil_zero_cases_with_{}_zero_samples", key, k))).sum::<i64>() as f64 });
             t.push(Threshold { what: format!("{} single-precision cases at x = +-0", key), required: ctx.tier.pick(1_000.0, 25_000.0), observed: rep.counter(&format!("{}_f32/f32_cases_at_zero", key)) as f64 });
+            t.push(Threshold { what: format!("{} polynomial cases scaled by 1e+-100..250", key), required: ctx.tier.pick(2_000.0, 50_000.0), observed: rep.counter(&format!("{}/scaled_by_1e+-100..250", key)) as f64 });
             t.push(Threshold { what: format!("{} linearity cases", key), required: 1_500.0 * big, observed: rep.counter(&format!("{}/linearity_cases", key)) as f64 });
             t.push(Threshold { what: format!("{} remainder-bound cases", key), required: 2_000.0 * big, observed: rep.counter(&format!("{}/smooth_cases", key)) as f64 });
             t.push(Threshold { what: format!("{} remainder-bound cases dominated by truncation (bound > 1000 x rounding allowance)", key), required: 500.0 * big, observed: rep.counter(&format!("{}/truncation_dominated", key)) as f64 });
